@@ -390,6 +390,37 @@ func (e *evaluator) mustReject(group, name string, tx *types.Transaction, why st
 	}
 }
 
+// otherEpoch: the same accepted transaction presented at a height on the other side of the chain-id fork, where
+// the chain's id is a different number: it names (ETH: is signed for) an id that is not the chain's there. The
+// verdict must be a function of (transaction, height), whatever was verified before.
+func (e *evaluator) otherEpoch(c chain, base *types.Transaction, kind string) {
+	if bigFromDec(c.cur).Cmp(bigFromDec(c.orig)) == 0 || c.fork == 0 {
+		return
+	}
+	var h uint64
+	if c.height >= c.fork {
+		h = c.fork - 1
+		if c.fork > 1 && rapid.Bool().Draw(e.t, "otherEpochLow") {
+			h = rapid.Uint64Range(0, c.fork-1).Draw(e.t, "otherEpochHeight")
+		}
+	} else {
+		h = c.fork
+		if rapid.Bool().Draw(e.t, "otherEpochHigh") {
+			h = rapid.Uint64Range(c.fork, ^uint64(0)).Draw(e.t, "otherEpochHeight")
+		}
+	}
+	err := verify(e.t, clone(base), h)
+	stats.Case(e.base+"|otherEpoch", kind+"_same_tx_on_other_side_of_chainid_fork")
+	if err == nil {
+		e.t.Fatalf("C07 violated: a transaction for chain id %s, accepted at height %d, is also accepted at height %d where the chain id is another one (chain=%s/%s fork=%d)\ntx=%s",
+			c.id, c.height, h, c.cur, c.orig, c.fork, render(base))
+	}
+	// and it is still accepted where it belongs
+	if err := verify(e.t, clone(base), c.height); err != nil {
+		e.t.Fatalf("C07 violated (completeness): honest transaction rejected at height %d after having been accepted there before (and refused at height %d in between): %v\ntx=%s", c.height, h, err, render(base))
+	}
+}
+
 // countOnly: a variant on which the property statement is silent.
 func (e *evaluator) countOnly(name string, tx *types.Transaction) {
 	err := verify(e.t, tx, e.height)
@@ -482,6 +513,7 @@ func checkNative(t *rapid.T, hashBits, sigBits int) {
 			err, render(base), c.height, c.cur, c.orig, c.fork, k.d)
 	}
 	e := &evaluator{t: t, height: c.height, base: hex.EncodeToString(base.Hash[:])}
+	e.otherEpoch(c, base, "native")
 	rehash := func(tx *types.Transaction) *types.Transaction { tx.Hash = refNativeHash(tx); return tx }
 	resign := func(tx *types.Transaction, by key, label string) *types.Transaction {
 		r, s, recid := refSign(t, tx.Hash.Bytes(), by, label)
@@ -798,6 +830,7 @@ func checkEth(t *rapid.T, hashBits, payloadBits int) {
 			err, render(base), c.height, c.cur, c.orig, c.fork, k.d)
 	}
 	e := &evaluator{t: t, height: c.height, base: hex.EncodeToString(base.Hash[:])}
+	e.otherEpoch(c, base, "eth")
 	other := drawKey(t, "otherKey")
 	for other.addrHex == k.addrHex {
 		other = drawKey(t, "otherKeyAgain")
